@@ -381,6 +381,24 @@ def parts(tier):
                 bounds={"max_tiers": 3, "depth": "fixed point" if not quick else 4}, max_depth=None if not quick else 4),
     ]
 
+    # the size axis: the whole menu (and the query / invalid-option / failing-mutator calls) once from long tiers
+    size_seeds = [("I", "t", 0.0, e[-1][1] + 1.0, e) for n, layout, e in D.size_family(quick)] + \
+                 [("P", "t", 0.0, n + 1.0, D.long_points(n)) for n in (D.SIZES_QUICK if quick else D.SIZES_THOROUGH)]
+
+    def size_ops(state):
+        e = state[4]
+        cuts = D.size_cuts(e)
+        k = len(cuts)
+        Vs = tuple(sorted(set(c for c in (cuts[1], cuts[2], cuts[3], cuts[k // 2], cuts[k // 2 + 1], cuts[k // 2 + 2], cuts[-3], cuts[-2], cuts[-1]) if c >= 0)))
+        yield from tierops.menu(state, Vs, (0.5,), (-1.0, 0.5), 0.5)
+        yield from EXTRA
+
+    ps.append(BfsPart("tier-operations-size-sweep", lambda: size_seeds, size_ops, _mk_tier_step({"I": tierops.OTHERS_I, "P": tierops.OTHERS_P}),
+                      rule="one step of the same menu from interval tiers (gapped, contiguous) and point tiers of %s entries, arguments at / in / between "
+                           "the entries at the start, the middle and the end (an inserted entry may collide with dozens of entries at once): copies do not "
+                           "mutate, failed mutations change nothing" % (list(D.SIZES_QUICK if quick else D.SIZES_THOROUGH),),
+                      bounds={"depth": 1}, max_depth=1))
+
     def tiny_ops(m):
         for nm in c12.NAMES:
             yield ("rm", nm)
